@@ -176,8 +176,13 @@ double Integrate(std::function<double(double)> func, double a, double b, const s
 	}
 	else if(method == "Tanh-Sinh")
 	{
+		// Integrate over [0, b-a]: the abscissae of the double exponential rule cluster at the end points, and on a narrow interval
+		// far from the origin they would otherwise all round onto the few representable numbers next to a and b.
 		tanh_sinh<double> integrator;
-		return sign * integrator.integrate(func, a, b);
+		auto shifted = [&func, a, b](double t) {
+			return func(std::min(a + t, b));
+		};
+		return sign * integrator.integrate(shifted, 0.0, b - a);
 	}
 	else if(method == "Gauss-Legendre_2")
 	{
